@@ -1764,6 +1764,49 @@ func (p *Prog) closeBeforeReplaceFor(owner *types.Named, handleField, segField *
 			}
 		}
 	}
+	base := map[*ssa.Function]bool{}
+	for f := range closers {
+		base[f] = true
+	}
+	// a method that hands on to a closer of the same object on every success path is a closer too
+	for changed := true; changed; {
+		changed = false
+		for _, fn := range p.Funcs {
+			if !srcFunc(fn) || recvNamed(fn) != owner || closers[fn] || len(fn.Params) == 0 {
+				continue
+			}
+			var calls []*ssa.Call
+			for _, b := range fn.Blocks {
+				for _, ins := range b.Instrs {
+					if c, ok := ins.(*ssa.Call); ok && closers[c.Common().StaticCallee()] && len(c.Call.Args) > 0 && c.Call.Args[0] == ssa.Value(fn.Params[0]) {
+						calls = append(calls, c)
+					}
+				}
+			}
+			if len(calls) == 0 {
+				continue
+			}
+			all := true
+			for _, rt := range returnsOf(fn) {
+				if ea.isFailureReturn(fn, rt) {
+					continue
+				}
+				dom := false
+				for _, c := range calls {
+					if instrDominates(c, rt) {
+						dom = true
+					}
+				}
+				if !dom {
+					all = false
+				}
+			}
+			if all {
+				closers[fn] = true
+				changed = true
+			}
+		}
+	}
 	changesFiles := func(g *ssa.Function) bool {
 		for _, o := range p.fsOps(g) {
 			if o.op == "REMOVE" && o.a.kind == "seg" {
@@ -1777,13 +1820,13 @@ func (p *Prog) closeBeforeReplaceFor(owner *types.Named, handleField, segField *
 	}
 	n := 0
 	for _, fn := range p.Funcs {
-		if !srcFunc(fn) || recvNamed(fn) != owner || closers[fn] {
+		if !srcFunc(fn) || recvNamed(fn) != owner || base[fn] {
 			continue
 		}
 		var closeCalls []*ssa.Call
 		for _, b := range fn.Blocks {
 			for _, ins := range b.Instrs {
-				if c, ok := ins.(*ssa.Call); ok && closers[c.Common().StaticCallee()] {
+				if c, ok := ins.(*ssa.Call); ok && closers[c.Common().StaticCallee()] && c.Common().StaticCallee() != fn {
 					closeCalls = append(closeCalls, c)
 				}
 			}
